@@ -36,6 +36,7 @@ type World struct {
 	state  map[types.BlockID]consensus.State // true post-state for ok blocks, header state otherwise
 	order  []types.BlockID
 	xn     int
+	cpState map[types.BlockID]consensus.State // crafted checkpoint parent states (bogus-binding attack)
 }
 
 // NewWorld returns a copy of the repository's test network (testutil.Network) with the v2
@@ -266,12 +267,16 @@ func (w *World) TreeJSON() map[string]any {
 		}
 	}
 	par, ht, cls := map[string]string{}, map[string]int{}, map[string]string{}
+	// "?" stands for every parent the oracle does not know (orphans hang off it)
+	par["?"], ht["?"], cls["?"], lo["?"], hi["?"] = "?", 0, "orphan", 0, 0
 	for _, id := range w.order {
 		n := w.name[id]
 		if n == "g" {
 			par[n] = "g"
+		} else if pn, ok := w.name[w.parent[id]]; ok {
+			par[n] = pn
 		} else {
-			par[n] = w.name[w.parent[id]]
+			par[n] = "?"
 		}
 		ht[n] = int(w.height[id])
 		cls[n] = w.class[id]
@@ -369,4 +374,20 @@ func (w *World) TotalWorkOf(name string) *big.Int {
 	w.mu.Lock()
 	defer w.mu.Unlock()
 	return workInt(w.state[w.id[name]].TotalWork)
+}
+
+func (w *World) setCheckpointState(id types.BlockID, cs consensus.State) {
+	w.mu.Lock()
+	defer w.mu.Unlock()
+	if w.cpState == nil {
+		w.cpState = map[types.BlockID]consensus.State{}
+	}
+	w.cpState[id] = cs
+}
+
+func (w *World) checkpointState(id types.BlockID) (consensus.State, bool) {
+	w.mu.Lock()
+	defer w.mu.Unlock()
+	cs, ok := w.cpState[id]
+	return cs, ok
 }
